@@ -1,4 +1,5 @@
 import Nstd.Args.LemmasExec
+import Nstd.Args.LemmasRead
 /-
   Property C20 -- theorems about the model of src/Process.cpp (Nstd/Args/Model.lean) and the
   specification (Nstd/Args/Spec.lean).  Bytes are natural numbers; 0 is the terminator,
@@ -6,6 +7,61 @@ import Nstd.Args.LemmasExec
 -/
 namespace Nstd.Args
 open Spec
+
+/-! ### Process::Arguments
+
+  `opts` is the option table (specification view: names without terminator), `toModel` gives the
+  table the C code sees (terminated name buffers).  `prog :: ws.map term` is the argument vector:
+  argv[0] and one exactly sized block `w ++ [0]` per word.  `size ws` = number of characters plus
+  number of words.  `readAll opts fuel st` is the caller's loop `while(arguments.read(c, a))`. -/
+
+/-- for every option table and every argument vector the sequence of (character, argument)
+    results delivered by `read` is the one the getopt conventions prescribe -/
+theorem read_sequence_eq_getopt (opts : List SOpt) (hok : OptsOk opts) (prog : Buf) (ws : List Word)
+    (hws : ∀ w ∈ ws, NoNul w) (fuel : Nat) (hf : size ws < fuel) :
+    readAll (opts.map toModel) fuel (St.init (prog :: ws.map term)) = .ok (getopt opts ws) := by
+  have := (readAll_spec opts hok fuel _ [] ws (Rel.init prog ws hws)).1 (by simpa using hf)
+  simpa [cont, St.init, cluster, getopt] using this
+
+/-- no call of `read` reads outside an argument string, an option name or the argv vector: the
+    loop never faults, whatever number of calls is made -/
+theorem read_no_oob (opts : List SOpt) (hok : OptsOk opts) (prog : Buf) (ws : List Word)
+    (hws : ∀ w ∈ ws, NoNul w) (fuel : Nat) :
+    readAll (opts.map toModel) fuel (St.init (prog :: ws.map term)) ≠ .fault :=
+  (readAll_spec opts hok fuel _ [] ws (Rel.init prog ws hws)).2
+
+/-- `read` returns false after at most `size ws` successful calls -/
+theorem read_terminates (opts : List SOpt) (hok : OptsOk opts) (prog : Buf) (ws : List Word)
+    (hws : ∀ w ∈ ws, NoNul w) :
+    readAll (opts.map toModel) (size ws + 1) (St.init (prog :: ws.map term)) ≠ .fuel := by
+  rw [read_sequence_eq_getopt opts hok prog ws hws _ (Nat.lt_succ_self _)]; simp
+
+/-- every single call from a state reached between two reads (`Rel`) stays inside the strings,
+    consumes at least one character or word, and continues the specified sequence -/
+theorem read_step_refines (opts : List SOpt) (hok : OptsOk opts) {argv : List Buf} {st : St} {pending : List Nat}
+    {rest : List Word} (h : Rel argv st pending rest) :
+    (∃ st', read (opts.map toModel) st = some (none, st') ∧ cont opts st.skipOpt pending rest = []) ∨
+    (∃ r st' pending' rest', read (opts.map toModel) st = some (some r, st') ∧ Rel argv st' pending' rest' ∧
+       pending'.length + size rest' < pending.length + size rest ∧
+       cont opts st.skipOpt pending rest = r :: cont opts st'.skipOpt pending' rest') :=
+  read_step opts hok h
+
+/-- the table of the correspondence run: a/alpha flag, b flag without long name, o/out required value, p/opt optional value -/
+def exTable : List SOpt :=
+  [⟨97, some [97, 108, 112, 104, 97], 0⟩, ⟨98, none, 0⟩, ⟨111, some [111, 117, 116], 1⟩, ⟨112, some [111, 112, 116], 3⟩]
+
+example : OptsOk exTable := by
+  intro o ho n hn
+  simp [exTable] at ho
+  rcases ho with rfl | rfl | rfl | rfl <;> simp at hn <;> subst hn <;> intro c hc <;> simp at hc <;> omega
+
+-- `-ab -ov -o v --out=v --opt -pv -z -- -a` and a missing value at the end
+example : getopt exTable [[45, 97, 98], [45, 111, 118], [45, 111], [118], [45, 45, 111, 117, 116, 61, 118],
+      [45, 45, 111, 112, 116], [45, 112, 118], [45, 122], [45, 45], [45, 97]] =
+    [(97, []), (98, []), (111, [118]), (111, [118]), (111, [118]), (112, []), (112, [118]), (63, [45, 122]), (0, [45, 97])] := by
+  decide
+example : readAll (exTable.map toModel) 40 (St.init ([112, 0] :: [[45, 97, 98], [45, 45, 111, 117, 116]].map term)) =
+    .ok [(97, []), (98, []), (58, [45, 45, 111, 117, 116])] := by decide
 
 /-! ### the command-line form: splitCommandLine -/
 
